@@ -111,6 +111,13 @@ func zzAssert(c bool, msg string) {
 	}
 }
 
+func zzAssertMsg(c bool, msg string, detail string) {
+	if !c {
+		zzFailures++
+		zzfmt.Println("ZZ-ASSERT-FAILED:", msg+":", detail)
+	}
+}
+
 func zzCover(msg string) {}
 
 func zzSymbolic() bool { return false }
